@@ -188,7 +188,11 @@ func c18Run(w *W) {
 				return
 			}
 		case "surveyor":
-			mustSet(w, obj, mangos.OptionSurveyTime, 2*time.Hour)
+			// (an accepted survey time of zero means the survey never expires:
+			// the receive deadline is then the only bound on a Recv)
+			st := []time.Duration{2 * time.Hour, 0}[w.Choose(simrt.SShape, 2)]
+			w.SetShape("survey_time", st.String())
+			mustSet(w, obj, mangos.OptionSurveyTime, st)
 			if err := obj.Send([]byte("survey")); err != nil {
 				w.Failf("HARNESS/prep", "survey send: %v", err)
 				return
@@ -357,6 +361,49 @@ func c18Run(w *W) {
 		}
 		if blockedOnce {
 			w.Probe("send-blocked-then-timeout")
+		}
+		if mode == "best-effort" && !w.Failed() {
+			// several goroutines send best-effort at the same moment into a queue
+			// that is full or about to be (nobody drains it when there is no peer
+			// or the peer is stalled): none of them may wait for room
+			ntask := 2 + w.Choose(simrt.SProg, 3)
+			// (on this socket, whose queue the calls above have filled, or on a
+			// fresh one with a few free slots - fewer than there are senders -
+			// and no peer at all)
+			burstOn := obj
+			bq := qlen
+			if w.Choose(simrt.SProg, 2) == 0 {
+				s2 := w.Sock(kind)
+				defer s2.Close()
+				bq = 1 + w.Choose(simrt.SProg, 3)
+				if s2.SetOption(mangos.OptionWriteQLen, bq) == nil && s2.SetOption(mangos.OptionBestEffort, true) == nil {
+					burstOn = s2
+				}
+			}
+			var calls []*Call
+			for t := 0; t < ntask; t++ {
+				t := t
+				calls = append(calls, w.Do(fmt.Sprintf("%s.Send(best effort, task %d)", kind, t), func() (interface{}, error) {
+					for j := 0; j < 3; j++ {
+						if err := burstOn.Send([]byte(fmt.Sprintf("burst-%d-%d", t, j))); err != nil && err != mangos.ErrProtoState {
+							return j, err
+						}
+					}
+					return 3, nil
+				}))
+			}
+			w.Settle()
+			for _, c := range calls {
+				if !c.Returned() || c.RetTime != c.InvTime {
+					w.Failf("C18/best-effort-blocked", "%s (WriteQLen %d, fresh socket without peers: %v): %d goroutines sending best-effort at once: %s has not returned at its invoke instant (returned=%v)%s", kind, bq, burstOn != obj, ntask, c.Label, c.Returned(), w.BlockedReport())
+					return
+				}
+				if c.Err != nil {
+					w.Failf("C18/best-effort-error", "%s: concurrent best-effort Send returned %v", kind, c.Err)
+					return
+				}
+			}
+			w.Probe("best-effort-concurrent-senders")
 		}
 	case "fail-no-peers":
 		if err := obj.SetOption(mangos.OptionFailNoPeers, true); err != nil {
